@@ -33,7 +33,48 @@ class StubNautilusBound(object):
 
     # -- the contract
     def _contains1(self, row):
-        return _W().uf('contains_%d' % self.idx, list(row), 'bool')
+        c = _W().uf('contains_%d' % self.idx, list(row), 'bool')
+        if self.__dict__.get('_outer_used'):
+            self._link_outer(list(row), c)
+        else:
+            self.__dict__.setdefault('_rows_seen', []).append((list(row), c))
+        return c
+
+    # Parts of a real NautilusBound that callers may look at: the phase shift
+    # (an unknown map of the point) and the outer bound (a superset of the
+    # bound, expressed in the shifted frame).  They only exist once they are
+    # used: contains_i(p) => outer_i(shift_i(p)).
+    def _shift1(self, row, inverse=False):
+        W = _W()
+        nm = 'shinv' if inverse else 'sh'
+        return [W.uf('%s%d_%d' % (nm, self.idx, k), list(row))
+                for k in range(len(row))]
+
+    def _link_outer(self, row, c):
+        W = _W()
+        o = W.uf('outer_%d' % self.idx, self._shift1(row), 'bool')
+        if W.symbolic:
+            import z3
+            from .engine import SV, truth
+            W.assume(SV(z3.Implies(truth(c), truth(o))))
+        else:
+            W.assume((not c) or o)
+
+    def _use_outer(self):
+        if not self.__dict__.get('_outer_used'):
+            self.__dict__['_outer_used'] = True
+            for row, c in self.__dict__.get('_rows_seen', []):
+                self._link_outer(row, c)
+
+    @property
+    def shift(self):
+        self._use_outer()
+        return _StubShift(self)
+
+    @property
+    def outer_bound(self):
+        self._use_outer()
+        return _StubOuter(self)
 
     def contains(self, points):
         np = _W().np
@@ -116,6 +157,35 @@ class StubNautilusBound(object):
         cls.pools_seen = []
         cls.calls_this_path = 0
         cls.max_sample_calls = max_sample_calls
+
+
+class _StubShift(object):
+    def __init__(self, b):
+        self.b = b
+
+    def transform(self, points, inverse=False):
+        np = _W().np
+        points = np.asarray(points)
+        rows = [self.b._shift1([points[j][k] for k in range(points.shape[1])],
+                               inverse) for j in range(len(points))]
+        return np.array(rows, dtype=float) if rows else \
+            np.zeros((0, points.shape[1]))
+
+
+class _StubOuter(object):
+    def __init__(self, b):
+        self.b = b
+
+    def contains(self, points):
+        W = _W()
+        np = W.np
+        points = np.asarray(points)
+        if points.ndim == 1:
+            return W.uf('outer_%d' % self.b.idx, list(points), 'bool')
+        out = [W.uf('outer_%d' % self.b.idx,
+                    [points[j][k] for k in range(points.shape[1])], 'bool')
+               for j in range(len(points))]
+        return np.array(out, dtype=bool) if out else np.zeros(0, dtype=bool)
 
 
 # ---------------------------------------------------------------------------
